@@ -66,6 +66,7 @@ class ContractAPI(object):
                 return r
             if pc1 >= len(script) or pc2 >= len(template):
                 break
+            start1 = pc1
             opcode1, data1, pc1, is_ok1 = self._script_tools.scriptStreamer.get_opcode(
                 script, pc1
             )
@@ -73,6 +74,10 @@ class ContractAPI(object):
                 template, pc2
             )
             l1 = 0 if data1 is None else len(data1)
+            if data2 in (b"PUBKEY", b"PUBKEYHASH", b"SEGWIT", b"SYNTHETIC_KEY"):
+                # only the push form that for_info would emit is the template
+                if data1 is None or script[start1:pc1] != self._script_tools.scriptStreamer.compile_push_data(data1):
+                    break
             if data2 == b"PUBKEY":
                 if l1 < 33 or l1 > 120:
                     break
@@ -178,10 +183,13 @@ class ContractAPI(object):
         m = opcode + (1 - OP_1)
         sec_keys = []
         while pc < len(script):
+            start = pc
             opcode, data, pc, is_ok = scriptStreamer.get_opcode(script, pc)
             size = len(data) if data else 0
             if size < 33 or size > 120:
                 break
+            if script[start:pc] != scriptStreamer.compile_push_data(data):
+                return None
             sec_keys.append(data)
         if pc >= len(script):
             return None
